@@ -15,7 +15,7 @@ PKG = "vcr/verifier"
 HARNESS = ["vcr/verifier/zz_verif_c01_test.go"]
 
 REQUIRED = ["check_order_irrelevant_for_accept", "valid_only_if", "key_is_from_the_issuers_document",
-            "vp_valid_only_if", "vp_every_other_credential_is_signature_checked", "fact_check_signature_flag_is_per_credential", "untrust_is_effective", "untrusted_issuer_is_rejected", "fact_trust_store_code", "fact_wiring", "api_vc_valid_only_if", "wallet_lists_only_current_unrevoked", "wallet_validate_ok", "vp_check_order_irrelevant_for_accept", "empty_presentation_holder_is_not_checked",
+            "vp_valid_only_if", "vp_every_other_credential_is_signature_checked", "fact_check_signature_flag_is_per_credential", "untrust_is_effective", "untrusted_issuer_is_rejected", "fact_trust_store_code", "fact_wiring", "fact_status_list_refresh_replaces_all_columns", "api_vc_valid_only_if", "wallet_lists_only_current_unrevoked", "wallet_validate_ok", "vp_check_order_irrelevant_for_accept", "empty_presentation_holder_is_not_checked",
             "tamper_evident", "tamper_evident_jwt", "tamper_evident_vp", "undefined_member_unsigned",
             "own_output_verifies_ld", "own_output_verifies_jwt", "own_presentation_verifies",
             "fact_verify_check_sequence", "fact_doVerifyVP_check_sequence", "fact_jsonldProof_check_sequence",
@@ -182,6 +182,24 @@ def run(ctx):
                               "mixed-vp-rejected.jsonl", replay_text(i))
     ctx.oblige("oracle:forged-credential-in-presentation-rejected-in-every-position(impl)", forged_accepted == 0 and (n_mix > 0 or bool(ctx.replay)),
                f"{forged_accepted} wrong verdicts of {n_mix} mixed presentations")
+
+    # revocation is permanent from the verifier's point of view: once a verification of a document reported "revoked", every later
+    # verification of the same document on that node reports revoked (refreshes of a status list must not resurrect it)
+    seen_revoked = {}
+    resurrected = 0
+    for i, op in enumerate(ops):
+        k = op.get("op")
+        if k == "reset":
+            seen_revoked = {}
+        elif k == "vc" and op.get("text"):
+            if impl[i] == "err:revoked":
+                seen_revoked.setdefault(op["text"], i)
+            elif impl[i].startswith("ok") and op["text"] in seen_revoked:
+                resurrected += 1
+                ctx.violation("C01:revoked-then-reported-valid-again:" + re.sub(r"^.*(@[a-z0-9-]+)$", r"\1", op.get("label", "")),
+                              f"{op.get('label')}: reported valid although op {seen_revoked[op['text']]} ({ops[seen_revoked[op['text']]].get('label')}) had reported the same document revoked",
+                              "resurrected.jsonl", replay_text(i))
+    ctx.oblige("oracle:once-revoked-always-revoked(impl)", resurrected == 0, f"{resurrected} resurrected")
 
     # ---------------- sibling entry points and edges
     edge_bad = n_edge = 0
